@@ -10,7 +10,7 @@ UNMODELLED = "unmodelled"
 LEVEL_TEXT = ("Lean theorems about total executable models of all seven parsers (FASTA, Phylip strict/relaxed/multi, Nexus, "
               "Clustal, Stockholm, partition + AddRange; termination = Lean's termination checker, explicit outcomes "
               "ok/error/exit/panic/hang): for FASTA the outcome theorem over ALL byte strings and options is proved for the "
-              "parser with the proposed patch (fasta_outcome_fixed) and, for the code as it is, everything except "
+              "parser with the proposed patch (fasta_outcome_fixed; likewise Stockholm: stockholm_outcome_fixed) and, for the code as it is, everything except "
               "non-emptiness (fasta_outcome_partial) with the kernel-checked counter-example; AddRange with the proposed "
               "guards is proved in bounds and terminating for all 64-bit start/end/modulo (addRange_in_bounds); for every "
               "other parser the full statement is refuted for the code as it is by kernel-evaluated counter-examples "
@@ -20,13 +20,14 @@ LEVEL_TEXT = ("Lean theorems about total executable models of all seven parsers 
 LEVEL_NOTE = ("Trusted: Lean kernel; harness + python watchdog (hang = no answer within 3 s on inputs < 1 kB); the naive "
               "header scanners of Spec/Fmt.lean; tools/extract/fmtfacts.go (syntactic recognition of the guards); "
               "bufio/UTF-8 decoding (models are ASCII-only: non-ASCII inputs carry no correspondence obligation but are "
-              "still judged by the predicate). The universal outcome theorems for Phylip, Nexus, Clustal, Stockholm and the "
+              "still judged by the predicate). The universal outcome theorems for Phylip, Nexus, Clustal and the "
               "partition token loops are open: see evidence 'partial'.")
 TECHNIQUE = "Lean 4 proof (total parser models, container invariant by induction over token lists) + exhaustive-truncation / mutation differential run"
 LEAN_MODULES = ["Gv.Props.C03"]
 REQUIRED_THEOREMS = ["Gv.Props.C03." + n for n in [
     "fasta_outcome_counterexample", "fasta_outcome_partial", "fasta_outcome_fixed",
     "stockholm_counterexample_hang", "stockholm_counterexample_empty", "stockholm_patched_witnesses",
+    "stockholm_outcome_partial", "stockholm_outcome_fixed",
     "nexus_counterexample_hang", "nexus_counterexample_zero_columns", "nexus_counterexample_minus_one",
     "nexus_patched_witnesses", "clustal_counterexample_panic", "clustal_patched_witness",
     "phylip_counterexample_alloc_panic", "phylip_patched_witness",
@@ -51,7 +52,10 @@ PARTIAL = [
     "FASTA: full statement false for the code as it is ('>a' + newline succeeds with 0 rows): fasta_outcome_partial proves all "
     "clauses except non-emptiness and characterises the zero-row successes; fasta_outcome_fixed proves the full statement "
     "for the patched parser",
-    "Phylip, Nexus, Clustal, Stockholm, partition parser: executable models + correspondence + kernel-evaluated "
+    "Stockholm: stockholm_outcome_fixed proves the full statement for the patched parser over all byte strings (never "
+    "panic, never hang, never empty); stockholm_outcome_partial covers the code as it is (hang and empty success are "
+    "its only deviations, both witnessed)",
+    "Phylip, Nexus, Clustal, partition parser: executable models + correspondence + kernel-evaluated "
     "counter-examples for the code as it is; the universal outcome theorems (never panic / never hang / ok => "
     "well-formed, for all byte strings) for the patched models are stated in Props/C03.lean and OPEN",
     "AddRange: proved for the guarded code (addRange_in_bounds); the token loops of the partition parser around it are open",
